@@ -79,6 +79,19 @@ def known_match(line, case, outdir):
         return None
     if not qs:
         return None
+    # the recorded finding is the behaviour of the faithful model (Props/C02.v C02_name_clash_loses_version,
+    # Props/C06.v C06_name_clash_one_sided_diverges): a history of the class on which the implementation does something
+    # ELSE than the model is a different violation and is reported as new
+    mp = os.path.join(outdir, "model.txt")
+    if os.path.exists(mp):
+        model = ""
+        with open(mp) as fh:
+            for l in fh:
+                if l.split(" ", 1)[0] == cid:
+                    model = l.rstrip("\n")
+                    break
+        if model and model != impl:
+            return None
     # the failing subject must be one of the clashing conflict names (a different violation is still reported as new)
     for q in qs:
         name = bytes.fromhex(q).decode(errors="replace")
